@@ -23,6 +23,7 @@ Step(e) ==
       [] e.ev = "TransErr" -> EvTransErr(e.ep, e.mt, e.s1, e.t)
       [] e.ev = "Enq"      -> EvEnq(e.ep, e.h, e.mt, e.len, e.g)
       [] e.ev = "EnqAbort" -> EvEnqAbort(e.ep, e.h, e.g)
+      [] e.ev = "Enqd"     -> UNCHANGED ovars     \* the caller's view of a completed enqueue (used by drivers as a delay point)
       [] e.ev = "Deq"      -> EvDeq(e.ep, e.h, e.mt, e.len, e.a)
       [] e.ev = "SegOut"   -> EvSegOut(e.ep, e.len, e.a)
       [] e.ev = "SegIn"    -> EvSegIn(e.ep, e.len, e.a)
